@@ -2778,3 +2778,48 @@ breaker('C10', 'ds-loadserial-guarded-by-pack', 'C16.R5', DSPY,
             if serial <= self._packed_to:
                 raise
             return self.base.loadSerial(oid, serial)''')
+
+breaker('C19', 'maxkey-recursion-smallest-suffix', 'C19.R8', FSIPY,
+        'fsIndex.maxKey',
+        '''                biggest_prefix = self._data.maxKey(next_prefix)
+                tree = self._data[biggest_prefix]
+                assert tree
+                biggest_suffix = tree.maxKey()
+''', '''                return self.maxKey(next_prefix + b'\\x00\\x00')
+''')
+twin('C19', 'maxkey-recursion-largest-suffix', FSIPY, 'fsIndex.maxKey',
+     '''                biggest_prefix = self._data.maxKey(next_prefix)
+                tree = self._data[biggest_prefix]
+                assert tree
+                biggest_suffix = tree.maxKey()
+''', '''                return self.maxKey(next_prefix + b'\\xff\\xff')
+''')
+breaker('C19', 'update-adopts-foreign-buckets', 'C19.R7', FSIPY,
+        'fsIndex.update',
+        '''        for k, v in mapping.items():
+            self[ensure_bytes(k)] = v
+''', '''        if isinstance(mapping, fsIndex):
+            data = self._data
+            for prefix, tree in mapping._data.items():
+                if prefix not in data:
+                    data[prefix] = tree
+                else:
+                    data[prefix].update(tree)
+            return
+        for k, v in mapping.items():
+            self[ensure_bytes(k)] = v
+''')
+twin('C19', 'update-copies-foreign-buckets', FSIPY, 'fsIndex.update',
+     '''        for k, v in mapping.items():
+            self[ensure_bytes(k)] = v
+''', '''        if isinstance(mapping, fsIndex):
+            data = self._data
+            for prefix, tree in mapping._data.items():
+                if prefix not in data:
+                    data[prefix] = fsBucket().fromString(tree.toString())
+                else:
+                    data[prefix].update(tree)
+            return
+        for k, v in mapping.items():
+            self[ensure_bytes(k)] = v
+''')
